@@ -175,13 +175,13 @@ def oracle(steps, prf, k, H, case):
             return None
         if not all(ref.well_typed(t, ref.BOOL) for t in hyps + [prop]):
             H.violation('c01:ill-typed-sequent:%s' % s['rule'], case,
-                        'line %d (%s) is accepted with an ill-typed / non-boolean / open sequent: %s' % (i, s['rule'], th))
+                        'line %d (%s) is accepted with an ill-typed / non-boolean / open sequent: %s' % (i, s['rule'], ref.show(prop)))
             return None
         status, info = model.refute(hyps, prop, k=k, rng=rng)
         if status == 'refuted':
             feat = step_feature(s)
             sig = 'c01:invalid-sequent:%s%s' % (s['rule'], ':' + feat if feat else '')
-            H.violation(sig, case, 'line %d: %s by %s is false in the model %s' % (i, th, s['rule'], info))
+            H.violation(sig, case, 'line %d: %s by %s is false in the model %s' % (i, ref.show(prop) + ' [hyps: ' + '; '.join(ref.show(h) for h in hyps) + ']', s['rule'], info))
             return None
         if status == 'unknown':
             H.inconc('line-not-evaluated')
@@ -214,7 +214,12 @@ def run_case(case, H):
     nontrivial = len(steps) >= 3 and (bool(INTERESTING & set(rules)) or discharge) and (models_last or 0) >= 2
     H.case(case, nontrivial, ['accepted'] + ['rule:' + r for r in sorted(set(rules))], sample=nontrivial)
     if nontrivial:
-        H.sample('script', {'steps': [[s['rule'], s.get('prevs', []), str(prf.items[i].th)] for i, s in enumerate(steps)]})
+        def show(th):
+            try:
+                return str(th)
+            except Exception:
+                return repr(codec.thm_enc(th))[:300]
+        H.sample('script', {'steps': [[s['rule'], s.get('prevs', []), show(prf.items[i].th)] for i, s in enumerate(steps)]})
 
 
 # ------------------------------------------------------------------ generation
